@@ -22,7 +22,14 @@ def main():
     except ModuleNotFoundError as e:
         print(f"no check for {prop}: {e}")
         sys.exit(EXIT_INCONCLUSIVE)
-    ev, viol, inconc, known_lines = mod.run()
+    try:
+        ev, viol, inconc, known_lines = mod.run()
+    except Exception as e:  # noqa -- a crash of the machinery is never a verdict: exit 2, and never a VIOLATION line
+        import traceback
+        traceback.print_exc()
+        print(f"INCONCLUSIVE property={prop} the check crashed: {type(e).__name__}: {str(e)[:300]}")
+        print(f"SUMMARY property={prop} tier={tier()} obligations=0 discharged=0 violations=0 inconclusive=1 known=0 wall_s=0")
+        sys.exit(EXIT_INCONCLUSIVE)
     ev.violations = len(viol)
     ev.cov["inconclusive_reasons"] = inconc
     ev.write()
